@@ -7,6 +7,7 @@ from __future__ import annotations
 import dataclasses
 from dataclasses import FrozenInstanceError
 import functools
+import operator
 from inspect import Signature, Parameter
 import traceback
 import typing as t
@@ -686,17 +687,31 @@ def _make_ord(cls: t.Type[PaneBase], fields: t.Sequence[Field]):
             return 1 if getattr(self, f.name) > getattr(other, f.name) else -1
         return 0
 
+    def _compare(self: PaneBase, other: t.Any, op: t.Callable[[t.Any, t.Any], bool], if_equal: bool) -> bool:
+        # lexicographic, like tuples: the first field which differs decides, using the operator itself
+        # (with partially ordered fields, like sets or NaN, 'not greater' does not mean 'less')
+        if _unparametrized(self.__class__) != _unparametrized(other.__class__):
+            return NotImplemented  # type: ignore
+        for f in fields:
+            if not f.compare:
+                continue
+            (a, b) = (getattr(self, f.name), getattr(other, f.name))
+            if a == b:
+                continue
+            return bool(op(a, b))
+        return if_equal
+
     def __lt__(self: PaneBase, other: t.Any) -> bool:
-        return NotImplemented if (o := _pane_ord(self, other)) is NotImplemented else t.cast(int, o) < 0
+        return _compare(self, other, operator.lt, False)
 
     def __le__(self: PaneBase, other: t.Any) -> bool:
-        return NotImplemented if (o := _pane_ord(self, other)) is NotImplemented else t.cast(int, o) <= 0
+        return _compare(self, other, operator.le, True)
 
     def __gt__(self: PaneBase, other: t.Any) -> bool:
-        return NotImplemented if (o := _pane_ord(self, other)) is NotImplemented else t.cast(int, o) > 0
+        return _compare(self, other, operator.gt, False)
 
     def __ge__(self: PaneBase, other: t.Any) -> bool:
-        return NotImplemented if (o := _pane_ord(self, other)) is NotImplemented else t.cast(int, o) >= 0
+        return _compare(self, other, operator.ge, True)
 
     setattr(cls, '_pane_ord', _pane_ord)
     setattr(cls, '__lt__', __lt__)
